@@ -178,11 +178,16 @@ def judge(case, part):
 
 def all_cases(tier="quick"):
     cases = []
-    for field_type, (rule, payload, code_range) in list(TYPES.items()) + [("Text", (None, "ABCD", [65, 90]))]:
+    default_presets = ("delimited", "fixed", "excel", "ods") + (("delimited_de", "fixed_de") if tier == "thorough" else ())
+    plan = [(field_type, entry, default_presets) for field_type, entry in list(TYPES.items()) + [("Text", (None, "ABCD", [65, 90]))]]
+    # Decimal cells written with thousands separators: the guards judge the cell as it stands in the data, separators included
+    plan.append(("Decimal", (None, "1,234.5", [44, 57]), ("delimited_us",)))
+    plan.append(("Decimal", (None, "1.234,5", [44, 57]), ("delimited_de", "fixed_de")))
+    for field_type, (rule, payload, code_range), presets in plan:
         size = len(payload)
-        for preset in ("delimited", "fixed", "excel", "ods") + (("delimited_de", "fixed_de") if tier == "thorough" else ()):
+        for preset in presets:
             fixed = preset.startswith("fixed")
-            if preset.endswith("_de") and field_type == "Decimal":
+            if preset.endswith("_de") and field_type == "Decimal" and "," not in payload:
                 continue  # the Decimal payload is written with the default separators
             for empty in (False, True):
                 lengths = {"exact": None} if fixed else length_options(size, tier)
